@@ -28,6 +28,7 @@ func init() {
 			{"C10.R8", "q", "value hashes are taken over decompressed bytes", c10r8},
 			{"C10.R9", "q", "C and Go compressors agree on the compact-header threshold", c10r9},
 			{"C09.R8", "q", "shared: buffer copies are exact", c09r8},
+			{"C10.R10", "q", "Go QuickLZ header codec: writer, readers and call sites agree", c10r10},
 		},
 	})
 }
@@ -105,6 +106,17 @@ func c10r2(c *Ctx) {
 			} else if len(rs.Results) == 0 {
 				if res := f.Result(0); res != nil && prog.HasNilFact(info, f.GuardsAt(rs), prog.IsObj(info, res), false) {
 					hands = true
+				} else if res != nil {
+					// `if err != nil || res != nil { return }`: one way into the branch is a non-nil record
+					for _, a := range f.GuardsAt(rs) {
+						if a.Op == token.ILLEGAL && !a.Neg && a.X != nil {
+							for _, d := range disjuncts(a.X) {
+								if be, ok := prog.Unparen(d).(*ast.BinaryExpr); ok && be.Op == token.NEQ && prog.ObjOf(info, be.X) == res && prog.IsNil(info, be.Y) {
+									hands = true
+								}
+							}
+						}
+					}
 				}
 			}
 			if !hands {
